@@ -8,6 +8,7 @@ import (
 	"net/http"
 	"os"
 	"path/filepath"
+	"strings"
 
 	dshelp "github.com/ipfs/boxo/datastore/dshelp"
 	pb "github.com/ipfs/boxo/filestore/pb"
@@ -318,15 +319,12 @@ func (f *FileManager) putTo(ctx context.Context, b *posinfo.FilestoreNode, to pu
 			return ErrFilestoreNotEnabled
 		}
 
-		//nolint:staticcheck
-		//lint:ignore SA1019 // ignore staticcheck
-		if !filepath.HasPrefix(b.PosInfo.FullPath, f.root) {
-			return fmt.Errorf("cannot add filestore references outside ipfs root (%s)", f.root)
-		}
-
+		// The file must be inside the root by path components: a string
+		// prefix test would also accept siblings such as <root>X/f, and
+		// paths that leave the root again through "..".
 		p, err := filepath.Rel(f.root, b.PosInfo.FullPath)
-		if err != nil {
-			return err
+		if err != nil || p == ".." || strings.HasPrefix(p, ".."+string(filepath.Separator)) {
+			return fmt.Errorf("cannot add filestore references outside ipfs root (%s)", f.root)
 		}
 
 		ps := filepath.ToSlash(p)
